@@ -35,7 +35,7 @@ func findFunc(f *ast.File, name, recv string, fset *token.FileSet) *ast.FuncDecl
 		if recv == "" && fd.Recv == nil {
 			return fd
 		}
-		if recv != "" && fd.Recv != nil && strings.Contains(src(fset, fd.Recv.List[0].Type), recv) {
+		if recv != "" && fd.Recv != nil && strings.TrimPrefix(src(fset, fd.Recv.List[0].Type), "*") == recv {
 			return fd
 		}
 	}
@@ -147,6 +147,25 @@ func genGroup() ([]byte, error) {
 		})
 		shapes = append(shapes, fmt.Sprintf("(%s, [%s])", tx.CoqString(name), strings.Join(evs, "; ")))
 	}
+	// the endpoint id of a member (repair e71b6d4): what Register stores in g.endpoints[proxyName] and what
+	// chooseEndpoint assigns to the name it returns
+	endpointExpr, chooseExpr := "?", "?"
+	if fd := findFunc(g, "Register", "HTTPGroup", fset); fd != nil {
+		ast.Inspect(fd.Body, func(n ast.Node) bool {
+			if as, ok := n.(*ast.AssignStmt); ok && len(as.Lhs) == 1 && src(fset, as.Lhs[0]) == "g.endpoints[proxyName]" {
+				endpointExpr = src(fset, as.Rhs[0])
+			}
+			return true
+		})
+	}
+	if fd := findFunc(g, "chooseEndpoint", "HTTPGroup", fset); fd != nil {
+		ast.Inspect(fd.Body, func(n ast.Node) bool {
+			if as, ok := n.(*ast.AssignStmt); ok && len(as.Lhs) == 1 && src(fset, as.Lhs[0]) == "name" && as.Tok == token.ASSIGN {
+				chooseExpr = src(fset, as.Rhs[0])
+			}
+			return true
+		})
+	}
 	// quic stream close
 	var quicCalls []string
 	if q, err := parser.ParseFile(fset, filepath.Join(tx.Repo, "pkg/util/net/conn.go"), nil, 0); err == nil {
@@ -168,6 +187,7 @@ func genGroup() ([]byte, error) {
 	fmt.Fprintf(&b, "Definition gen_group_glue : hg_glue :=\n  {| hgl_choose_tok := %s; hgl_choose_target := %s; hgl_urlhost_reads_endpoint := %v; hgl_info_endpoint_from := %s;\n     hgl_connect_callee := %s; hgl_connect_by_endpoint := %s |}.\n",
 		tx.CoqString(tok), tx.CoqString(target), urlReads, tx.CoqString(infoFrom), tx.CoqString(callee), tx.CoqString(byEndpoint))
 	b.WriteString("Definition gen_group_dial_shapes : list (string * list lk_ev) :=\n  [" + strings.Join(shapes, ";\n   ") + "].\n")
+	fmt.Fprintf(&b, "Definition gen_group_endpoint_id_expr : string := %s.\nDefinition gen_group_choose_returns : string := %s.\n", tx.CoqString(endpointExpr), tx.CoqString(chooseExpr))
 	b.WriteString("Definition gen_quic_close_calls : list string := [" + strings.Join(quicCalls, "; ") + "].\n")
 	return b.Bytes(), nil
 }
